@@ -149,6 +149,8 @@ fn part_b(tier: Tier, report: &mut Report) {
         .collect();
     sentences.push("Ünï 😀 teh tset, an apple 😀 an orange.".into());
     sentences.push("There is an  problem with 😀😀 teh teh thing".into());
+    let long_hard_wrapped = |nl: &str| format!("This sentense keeps going and going with many words so that it becomes much{nl}longer than forty wrds in total which is what the long sentence rule needs in{nl}order to fire at all when we run the hole group of rules over it today and tomorrow and 😀 then");
+    let multi: Vec<String> = vec![long_hard_wrapped("\n"), long_hard_wrapped("\r\n"), format!("😀 intro.\n\n{}", long_hard_wrapped("\n"))];
     let step = tier.pick(6, 1);
     let sentences: Vec<String> = sentences.into_iter().step_by(step).collect();
     let n = sentences.len() as u64;
@@ -164,7 +166,11 @@ fn part_b(tier: Tier, report: &mut Report) {
         merged.add_dictionary(curated.clone());
         let dict = Arc::new(merged);
         for si in s..e {
-            for text in placements(&sentences[si as usize]) {
+            let mut docs = placements(&sentences[si as usize]);
+            if si == 0 {
+                docs.extend(multi.iter().cloned());
+            }
+            for text in docs {
                 for lang in langs {
                     evals += 1;
                     let chars = s2c(&text);
@@ -195,14 +201,20 @@ fn part_b(tier: Tier, report: &mut Report) {
                     if !lints.is_empty() {
                         nontrivial += 1;
                     }
-                    for (d, l) in diags.iter().zip(lints.iter()) {
+                    // the published diagnostics are matched to the lints as a multiset (their order is
+                    // not part of the property)
+                    let mut pool: Vec<&tower_lsp::lsp_types::Diagnostic> = diags.iter().collect();
+                    for l in lints.iter() {
                         let (ws, we) = (ref_position(&chars, l.span.start), ref_position(&chars, l.span.end));
-                        if (d.range.start.line, d.range.start.character, d.range.end.line, d.range.end.character) != (ws.0, ws.1, we.0, we.1) || d.message != l.message {
+                        let hit = pool.iter().position(|d| (d.range.start.line, d.range.start.character, d.range.end.line, d.range.end.character) == (ws.0, ws.1, we.0, we.1) && d.message == l.message);
+                        let Some(hit) = hit else {
                             if viols.len() < 6 {
-                                viols.push(Violation { sig: "diagnostics:range-does-not-cover-the-lint".into(), case: case.clone(), detail: json!({"range": format!("{:?}", d.range), "want": [ws, we], "lint": crate::sweep::lint_json(l)}) });
+                                let multi = ws.0 != we.0;
+                                viols.push(Violation { sig: format!("diagnostics:no-diagnostic-covers-the-lint:{}", if multi { "multi-line-lint" } else { "single-line-lint" }), case: case.clone(), detail: json!({"want": [ws, we], "lint": crate::sweep::lint_json(l), "published": diags.iter().map(|d| format!("{:?} {}", d.range, d.message)).collect::<Vec<_>>() }) });
                             }
                             continue;
-                        }
+                        };
+                        let d = pool.remove(hit);
                         // every position inside the range (at character boundaries)
                         for idx in l.span.start..l.span.end.max(l.span.start + 1).min(chars.len().max(l.span.start + 1)) {
                             if idx >= chars.len() {
